@@ -137,4 +137,15 @@ PROPS = {
         assumptions=['simulated MPI (vf/shim): matching is checked per rendezvous on (operation, root, count, dtype)',
                      'MPI progress: identical collective sequences on all members complete for every arrival order (assumed)'],
     ),
+    'C05': dict(
+        level='other',
+        contracts=[],
+        functions=[],
+        bounded=[dict(module='vf.rt.bounded_sim', prop='C05',
+                      bound='one Strang step of the driver statements (mechanical slice of fullSimulation.main: timing, printing, '
+                            'diagnostics and file output dropped, line numbers in the evidence) on an 8x8x8x8 grid (quick) / 10x8x9x8 '
+                            '(thorough), iotaVal 0.8 (thorough also 0), process counts 2,4 (thorough 2,3,4,6) against the serial run, '
+                            'tolerance 1e-10 relative for f, 1e-8 for phi')],
+        assumptions=['simulated MPI (vf/shim)', 'reductions are not compared bit for bit (floating-point reassociation)'],
+    ),
 }
